@@ -5,7 +5,7 @@ WT=$1; DIFF=$2; shift; shift
 cd $WT && git checkout -q -- . && git clean -fdq && git apply $DIFF || { echo APPLY-FAILED; exit 2; }
 for P in "$@"; do
   OUT=/tmp/trymut_$(basename $WT)_$(basename $DIFF .diff)_$P.txt
-  ( cd /verif && VERIF_REPO=$WT timeout 1500 ./check $P quick > $OUT 2>&1 ); RC=$?
+  ( cd ${VERIF_SNAP:-/verif} && VERIF_REPO=$WT timeout 1500 ./check $P quick > $OUT 2>&1 ); RC=$?
   echo "== $(basename $WT) $(basename $DIFF) -> $P exit=$RC violations=$(grep -c '^VIOLATION' $OUT) :: $(grep "^$P quick" $OUT | cut -c1-160)"
   grep -A1 '^VIOLATION' $OUT | grep what | head -2 | cut -c1-500
 done
